@@ -420,6 +420,11 @@ func tree(t *rapid.T, o *TreeOpts, l geom.Layout, depth int, kinds []string) *mo
 		// or per collection closed reaches the hundreds, which hundreds of members of
 		// random sorts do not give for any one sort
 		k := rapid.SampledFrom([]int{1, 1, 2, 3}).Draw(t, "palette")
+		// (the members themselves are small: no long lines and no hundreds of members
+		// again inside each of hundreds of members)
+		small := *o
+		small.LongPct = 0
+		o = &small
 		var pal []model.G
 		for i := 0; i < k; i++ {
 			ml := l
